@@ -112,6 +112,18 @@ CHECKS = {
         note='Trusted: Coq kernel; extraction + OCaml; differential harness. Known findings are matched per (class family, predicate, '
              'original | mutated vector).',
         technique='Coq proof (canonical-form lemmas) over the modelled classes; differential parse/compose/parse run; all-class sweep'),
+    'C19': dict(
+        category='proof',
+        text='Coq theorems over an explicit cost semantics (one step per engine primitive, per table entry compared, per loop iteration) '
+             'for the only loop of the modelled vector parsers: at most one iteration per byte present, termination within the provided '
+             'fuel, steps <= (2 + |table| + |grease|) * len + 3 for every buffer accepted or rejected, two steps and no iteration when a '
+             'declared length exceeds the data, and termination of the reader retry loop. Tie and the rest of the library: sys.monitoring '
+             'line-event counts and call depth of parse_immutable on 19 scalable shapes at n..8n (marginal events per byte must not grow, '
+             'depth must not grow) and a global events <= K*len + K0 bound on all 367 classes reached by the repository tests.',
+        design_ref='DESIGN.md section 6, C19',
+        note='Partial: that a model step corresponds to a bounded number of interpreter line events is measured, not proved; work inside C '
+             'primitives is invisible to the metric; K, K0 and the slope tolerance are calibrated constants reported in the evidence.',
+        technique='Coq proof over a cost semantics of the modelled loops; sys.monitoring step counts at growing sizes on the implementation'),
 }
 
 NOT_YET = {}
